@@ -725,6 +725,13 @@ def builtin_call(self, st, name, args, kwargs, node=None):
         return [(OK, st, Val(self.now(st).term, DATETIME))]
     if name in ("datetime.datetime.fromtimestamp", "datetime.fromtimestamp"):
         return [(OK, st, Val(coerce(a[0], REAL).term, DATETIME))]
+    if name in ("datetime.timedelta", "timedelta") and not a and set(kwargs) <= {"seconds"}:
+        return [(OK, st, coerce(kwargs.get("seconds", Val(z3.IntVal(0), INT)), REAL))]     # a duration in seconds
+    if name in ("datetime.datetime.fromisoformat", "datetime.fromisoformat"):
+        inv = getattr(self.reg, "fromisoformat_fn", None)
+        if inv is None:
+            raise Unsupported("datetime.fromisoformat without a model")
+        return [(OK, st, Val(inv(self.need(st, a[0], STR).term), DATETIME))]
     if name == "hash":
         return [(OK, st, Val(z3.Int(fresh_name("hash")), INT))]
     if name == "repr":
